@@ -82,6 +82,11 @@ CLAIMS = {
         technique="Verus unbounded proof on calculate_partition_replicas (exact: known members of replica_nodes(b,N,rf) in offset order; distinctness/length lemmas over the spec) and on the bucket-selection loops of calculate_assigned_partitions, both extracted verbatim",
         text="For every cluster size (incl. N >= 256), bucket count, partition id and rf <= 12: the replica list is exactly the known nodes among (b%N + k)%N, k < min(rf,N), in offset order; with all nodes known it has exactly min(rf,N) pairwise distinct entries (lemma: k -> (a+k)%N injective); a node's bucket set is exactly the buckets whose replica set contains it, so `owns iff in replica set` holds by construction. Determinism across nodes follows from the result being a function of (arguments, known-node map).",
         note="Assumed: vstd HashMap/HashSet specs; ArrayVec shim; rf <= 12 (ArrayVec capacity; not enforced by config validation); the filter/collect tail of calculate_assigned_partitions (std, no Verus spec: the proved fact is the bucket set before the tail). NOT decided: recalculate_partition_assignments over real HashMap iteration order, get_available_replicas' sort (closure), libp2p event delivery. Kani is infeasible here (64-bit symbolic modulo; measured > 20 min)."),
+    "C22": dict(
+        category="other", design_ref="§7 U18",
+        technique="Kani/CBMC on a SLICE (R5/R4) of the EMAPPEND request handler (per-event stream-version reconstruction) lifted verbatim, against array models of the map and lists",
+        text="Bounded stand-in (<= 3 events over <= 2 streams, versions full-range): for any append result consistent with the number of events per stream, the EMAPPEND response has one entry per event in request order and the i-th event of a stream reports last - (k - 1 - i) — the per-event stream versions the reference model prescribes — without panicking (including a new stream whose first event has version 0).",
+        note="VERY PARTIAL: one response-construction slice of one command. NOT decided: EAPPEND timestamp conversion, encode_event numeric casts, EGET / ESCAN / EPSCAN / ESVER / EPSEQ / subscription commands against the reference model, has_more flags, error replies instead of crashed connections (the request loop Conn::run), the model-equivalence of whole command histories."),
     "C23": dict(
         category="proof", design_ref="§4 C23 / U05",
         technique="Kani/CBMC complete harnesses (loop-free, full-domain symbolic ids/hashes/clock/RNG) on id.rs extracted verbatim; Verus contracts on the two bucket helpers; bounded Kani harness for Transaction::new",
@@ -105,7 +110,6 @@ CLAIMS = {
 }
 
 NOT_APPLICABLE = {
-    "C22": "not decided in this build: the response-construction slices of the async request handlers (R4/R5) were not built (DESIGN A.3)",
     "C06": "crash between sealing a segment and the background index flush: recovery of a missing/short index is not a function of the code base (DatabaseBuilder::open propagates the error), runs across a rayon pool; no contract on an existing function expresses it (DESIGN §9)",
     "C10": "cross-node agreement under message loss/reordering/crash schedules of async actors: protocol-level inductive invariant, out of reach of per-function contracts (Verus has no async, Kani no threads/network); sequential building blocks are covered under C02/C08/C12 (DESIGN §9)",
     "C11": "quorum durability across nodes: same schedule/fault quantifier as C10 (DESIGN §9)",
